@@ -39,7 +39,7 @@ static inline void __verif_cut_backjump(void)
 }
 VERIF_CONTRACT_VOID(_dispatch_workloop_barrier_complete, (dispatch_workloop_t dwl, dispatch_qos_t qos, dispatch_wakeup_flags_t flags),
   REQ(dwl == &H_wl && qos == H_qos0 && flags == H_flags0 && __verif_n == 0 && H_wl.dq_state == H_state0 && H_qos0 <= DISPATCH_QOS_MAX && H_wl.do_targetq == (dispatch_queue_t)&H_target
-      && (H_state0 & DISPATCH_QUEUE_IN_BARRIER) && (H_state0 & DISPATCH_QUEUE_WIDTH_MASK) >= DISPATCH_QUEUE_WIDTH_INTERVAL && _dq_state_drain_locked_by(H_state0, _dispatch_tid_self()) && !_dq_state_is_enqueued_on_manager(H_state0))
+      && (H_state0 & DISPATCH_QUEUE_IN_BARRIER) && (H_state0 & DISPATCH_QUEUE_WIDTH_MASK) >= DISPATCH_QUEUE_WIDTH_INTERVAL && S_OWNER(H_state0) == H_SELF && VALID_TID(H_SELF) && !(H_state0 & DISPATCH_QUEUE_ENQUEUED_ON_MGR))
   ASG(VERIF_GHOST, H_wl.dq_state)
   ENS(log_bounded, __verif_n >= 1 && __verif_n <= 4)
   /* C03: a sync waiter at the head of a bucket - the highest such bucket - receives the work loop directly (hand-off): nothing is unlocked, nobody else can get in between */
@@ -67,7 +67,7 @@ void harness(void)
 	for (unsigned b = 0; b < DISPATCH_QOS_NBUCKETS; b++) { H_nonempty[b] = ND_BOOL(); H_it[b].dc_flags = ND(uintptr_t) & 0x1ff; H_it[b].do_next = 0;
 		H_wl.dwl_heads[b] = H_nonempty[b] ? (void *)&H_it[b] : (void *)0; H_wl.dwl_tails[b] = H_nonempty[b] ? (void *)&H_it[b] : (void *)0; }
 	H_state0 = ND(uint64_t); H_wl.dq_state = H_state0; H_flags0 = ND(dispatch_wakeup_flags_t); H_qos0 = ND(dispatch_qos_t);
-	__CPROVER_assume(H_qos0 <= DISPATCH_QOS_MAX && (H_state0 & DISPATCH_QUEUE_IN_BARRIER) && (H_state0 & DISPATCH_QUEUE_WIDTH_MASK) >= DISPATCH_QUEUE_WIDTH_INTERVAL && _dq_state_drain_locked_by(H_state0, _dispatch_tid_self()) && !_dq_state_is_enqueued_on_manager(H_state0));
+	__CPROVER_assume(H_qos0 <= DISPATCH_QOS_MAX && (H_state0 & DISPATCH_QUEUE_IN_BARRIER) && (H_state0 & DISPATCH_QUEUE_WIDTH_MASK) >= DISPATCH_QUEUE_WIDTH_INTERVAL && S_OWNER(H_state0) == H_SELF && VALID_TID(H_SELF) && !(H_state0 & DISPATCH_QUEUE_ENQUEUED_ON_MGR));
 	_dispatch_workloop_barrier_complete(&H_wl, H_qos0, H_flags0);
 	VERIF_POST_VOID(_dispatch_workloop_barrier_complete, &H_wl, H_qos0, H_flags0);
 	VERIF_REACH(hand_off, ANY_WAITER);
